@@ -14,6 +14,8 @@ READS = [
     [dict(op="NR", k=0), dict(op="RL", k=7)] * 6,
     [dict(op="JA", k=0), dict(op="NR", k=0)],
     [dict(op="RM", k=0), dict(op="JA", k=2), dict(op="NR", k=0)],
+    [dict(op="JA", k=2, r=1), dict(op="NR", k=0)],
+    [dict(op="JA", k=3, r=2), dict(op="NR", k=0)],
     [dict(op="RJ", k=0)] * 8,
     [dict(op="RJ", k=0), dict(op="RM", k=0), dict(op="NR", k=0), dict(op="RD", k=3)] * 3,
 ]
@@ -56,7 +58,7 @@ def run_pair_check(pid, tier, mcs, max_progs, mult=1, assumptions=()):
     conc = []
     for w in wconc:
         total_bytes = sum(o.get("n", 0) for o in w["ops"])
-        reads = rnd.choice(READS if total_bytes <= 3000 else READS[:6] + READS[8:])
+        reads = rnd.choice(READS if total_bytes <= 3000 else READS[:6] + READS[10:])
         chunk = rnd.choice(["whole", "half", "frame", "hdr", "rand"] + (["byte"] if total_bytes <= 2000 else []))
         wid = w["id"]
         w2 = dict(w); w2["id"] = wid + "/w"
